@@ -24,9 +24,11 @@ Section Empties.
   Variable ix : indexer.
   Variables unicode utf16 : bool.
   Variable h : hay.
+  Variable okp : nat -> Prop.
   Notation IR := (ir_results ix unicode utf16 h).
-  Notation ref := (ref ix unicode utf16 h).
-  Notation PRel := (PRel ix unicode utf16 h).
+  Notation ref := (ref ix unicode utf16 h okp).
+  Notation al := (al ix unicode utf16 h okp).
+  Notation PRel := (PRel ix unicode utf16 h okp).
 
   Lemma obindm_empty f fwd : forall xs ys, obindm (IR f NEmpty fwd) xs = Some ys -> ys = xs.
   Proof.
@@ -49,21 +51,21 @@ Section Empties.
   Lemma ref_filter fwd l : ref fwd (NCat l) (NCat (filter ne l)).
   Proof.
     split; [|apply rstep_nol1; reflexivity].
-    apply (rres_fle ix unicode utf16 h fwd _ _ 0%nat). intros [|f] x r E; [discriminate|].
+    apply (rres_fle ix unicode utf16 h okp fwd _ _ 0%nat). intros [|f] x r E; [discriminate|].
     rewrite Nat.add_0_r. rewrite ir_cat_eq in *. apply filter_fle. exact E.
   Qed.
 
   Lemma ref_byteseq_nil fwd : ref fwd (NByteSequence []) NEmpty.
   Proof.
     split; [|apply rstep_nol1; reflexivity].
-    apply (rres_fle ix unicode utf16 h fwd _ _ 0%nat). intros [|f] [p G] r E; [discriminate|].
+    apply (rres_fle ix unicode utf16 h okp fwd _ _ 0%nat). intros [|f] [p G] r E; [discriminate|].
     rewrite Nat.add_0_r. rewrite ir_empty_eq. destruct fwd; exact E.
   Qed.
 
   Lemma ref_alt_empty fwd : ref fwd (NAlt NEmpty NEmpty) NEmpty.
   Proof.
     split; [|apply rstep_nol1; reflexivity].
-    exists 0%nat. intros [|f] _ x r E; [discriminate|]. rewrite Nat.add_0_r. rewrite ir_alt_eq in E.
+    exists 0%nat. intros [|f] _ x r _ E; [discriminate|]. rewrite Nat.add_0_r. rewrite ir_alt_eq in E.
     destruct f as [|f]; [discriminate|]. rewrite ir_empty_eq in E. inversion E; subst.
     exists [x]. split; [apply ir_empty_eq|apply (dd_twice [x])].
   Qed.
@@ -71,7 +73,7 @@ Section Empties.
   Lemma ref_look_empty fwd bw sg eg : ref fwd (NLookaround false bw sg eg NEmpty) NEmpty.
   Proof.
     split; [|apply rstep_nol1; reflexivity].
-    apply (rres_fle ix unicode utf16 h fwd _ _ 0%nat). intros [|f] [p G] r E; [discriminate|].
+    apply (rres_fle ix unicode utf16 h okp fwd _ _ 0%nat). intros [|f] [p G] r E; [discriminate|].
     rewrite Nat.add_0_r. rewrite ir_empty_eq. cbn [ir_results] in E.
     destruct f as [|f]; [discriminate|]. rewrite ir_empty_eq in E. exact E.
   Qed.
@@ -108,7 +110,7 @@ Section Empties.
     ref fwd (NLoop NEmpty mn mx gr egs ege) NEmpty.
   Proof.
     intros Hmm Hz. split; [|apply rstep_nol1; reflexivity].
-    apply (rres_fle ix unicode utf16 h fwd _ _ 0%nat). intros [|f] x r E; [discriminate|].
+    apply (rres_fle ix unicode utf16 h okp fwd _ _ 0%nat). intros [|f] x r E; [discriminate|].
     rewrite Nat.add_0_r. rewrite ir_empty_eq. rewrite ir_loop_eq in E.
     destruct f as [|f]; [discriminate|].
     rewrite (empty_loop (IR (S f) NEmpty fwd) mn mx gr egs ege (fun x0 => ir_empty_eq ix unicode utf16 h f fwd x0) Hmm Hz
@@ -119,49 +121,54 @@ Section Empties.
   Lemma ref_loop_max0 fwd body gr egs ege : ref fwd (NLoop body 0 (Some 0) gr egs ege) NEmpty.
   Proof.
     split; [|apply rstep_nol1; reflexivity].
-    apply (rres_fle ix unicode utf16 h fwd _ _ 0%nat). intros [|f] x r E; [discriminate|].
+    apply (rres_fle ix unicode utf16 h okp fwd _ _ 0%nat). intros [|f] x r E; [discriminate|].
     rewrite Nat.add_0_r. rewrite ir_empty_eq. rewrite ir_loop_eq in E.
     destruct f as [|f]; [discriminate|]. cbn in E. exact E.
   Qed.
+
+  Lemma al_filter : forall l, Forall al l -> Forall al (filter ne l).
+  Proof. induction 1 as [|c l Hc Hl IH]; [constructor|]. cbn [filter]. destruct (ne c); [constructor; assumption|exact IH]. Qed.
 
   Lemma empties_sound lb n a : remove_empties lb n = Ok a -> PRel lb n (act_node a n).
   Proof.
     intros E. destruct n; try (inversion E; subst; apply PRel_refl).
     - (* ByteSequence *)
       destruct bs; inversion E; subst; [|apply PRel_refl].
-      intro Hq. split; [apply ref_byteseq_nil|split; reflexivity].
+      intros Hq Ha. split; [apply ref_byteseq_nil|split; [reflexivity|split; [apply al_empty|reflexivity]]].
     - (* Cat *)
       cbn [remove_empties] in E. fold ne in E.
       destruct (length (filter ne l) =? length l)%nat; [inversion E; subst; apply PRel_refl|].
       assert (Hf : PRel lb (NCat l) (NCat (filter ne l))).
-      { intro Hq. split; [apply ref_filter|]. split; [apply qok_filter; exact Hq|apply ng_filter]. }
+      { intros Hq Ha. split; [apply ref_filter|]. split; [apply qok_filter; exact Hq|].
+        split; [apply al_cat; apply al_filter; apply al_cat; exact Ha|apply ng_filter]. }
       destruct (filter ne l) as [|x [|y t]] eqn:Ek; inversion E; subst; cbn [act_node].
-      + eapply PRel_trans; [exact Hf|]. intro Hq. split; [apply ref_cat_nil|split; reflexivity].
-      + eapply PRel_trans; [exact Hf|]. intro Hq. split; [apply ref_cat_single|].
+      + eapply PRel_trans; [exact Hf|]. intros Hq Ha. split; [apply ref_cat_nil|split; [reflexivity|split; [apply al_empty|reflexivity]]].
+      + eapply PRel_trans; [exact Hf|]. intros Hq Ha. split; [apply ref_cat_single|].
         cbn [qok forallb] in Hq. rewrite andb_true_r in Hq. split; [exact Hq|].
+        split; [apply al_cat in Ha; inversion Ha; assumption|].
         cbn [ng map]. rewrite list_sum_cons. cbn [list_sum fold_right]. lia.
       + exact Hf.
     - (* Alt *)
       cbn [remove_empties] in E.
       destruct n1; try (inversion E; subst; apply PRel_refl).
       destruct n2; try (inversion E; subst; apply PRel_refl).
-      inversion E; subst. intro Hq. split; [apply ref_alt_empty|split; reflexivity].
+      inversion E; subst. intros Hq Ha. split; [apply ref_alt_empty|split; [reflexivity|split; [apply al_empty|reflexivity]]].
     - (* Lookaround *)
       cbn [remove_empties] in E. destruct negate; cbn [negb andb] in E; [inversion E; subst; apply PRel_refl|].
       destruct n; try (inversion E; subst; apply PRel_refl).
-      inversion E; subst. intro Hq. split; [apply ref_look_empty|split; reflexivity].
+      inversion E; subst. intros Hq Ha. split; [apply ref_look_empty|split; [reflexivity|split; [apply al_empty|reflexivity]]].
     - (* Loop *)
       cbn [remove_empties] in E.
       destruct (is_empty_node n || (match max with Some 0 => true | _ => false end) && (egs =? ege)%nat) eqn:Hc;
         inversion E; subst; [|apply PRel_refl].
-      intro Hq. cbn [act_node]. cbn [qok] in Hq.
+      intros Hq Ha. cbn [act_node]. cbn [qok] in Hq.
       apply andb_true_iff in Hq as [Hq1 Hq3]. apply andb_true_iff in Hq1 as [Hq1 Hq2].
       apply N.leb_le in Hq2. apply Nat.eqb_eq in Hq3.
       destruct n; cbn [is_empty_node orb] in Hc;
-        try (split; [apply ref_loop_empty; [exact Hq2|exact Hq3]|split; reflexivity]);
+        try (split; [apply ref_loop_empty; [exact Hq2|exact Hq3]|split; [reflexivity|split; [apply al_empty|reflexivity]]]);
         (destruct max as [[|mxp]|]; try discriminate Hc; cbn [andb] in Hc; apply Nat.eqb_eq in Hc; subst ege;
          cbn [max_val] in Hq2; assert (min = 0) by lia; subst min;
-         split; [apply ref_loop_max0|split; [reflexivity|rewrite Nat.sub_diag in Hq3; exact Hq3]]).
+         split; [apply ref_loop_max0|split; [reflexivity|split; [apply al_empty|rewrite Nat.sub_diag in Hq3; exact Hq3]]]).
   Qed.
 
   Theorem empties_pass_sound fuel n n' : run_to_fixpoint remove_empties fuel n = Ok n' -> PRel false n n'.
